@@ -71,6 +71,26 @@ pub proof fn axiom_string_ext(a: String, b: String)
     ensures a@ == b@ ==> a == b,
 {}
 
+/// `String` built from a view (ghost only) -- with axiom_string_ext this is the unique such String
+pub uninterp spec fn string_of(s: Seq<char>) -> String;
+pub mod ax_strof {
+use super::*;
+#[verifier::external_body]
+pub broadcast proof fn axiom_string_of(s: Seq<char>) ensures #[trigger] string_of(s)@ == s {}
+}
+pub use ax_strof::*;
+
+
+pub mod ax_str {
+use super::*;
+/// broadcast form of axiom_string_ext (opt-in per function: it instantiates on every pair of string views)
+#[verifier::external_body]
+pub broadcast proof fn axiom_string_ext_auto(a: String, b: String)
+    ensures (#[trigger] a@) == (#[trigger] b@) ==> a == b,
+{}
+}
+pub use ax_str::*;
+
 pub open spec fn ek(e: Error) -> ErrK {
     match e {
         Error::InvalidType => ErrK::InvalidType,
@@ -338,10 +358,13 @@ pub open spec fn t_int(a: Val) -> Res {
         _ => Res::Err(ErrK::InvalidType),
     }
 }
-/// float(Int) is `i as f64` (round to nearest); Verus gives exec int->float casts no spec, so that one
-/// cell only fixes the result type (t_float_int_cell)
+/// float(Int) is `i as f64` (round to nearest).  Verus gives exec int->float casts no spec, so the cast is routed
+/// through the boundary function `cast_i128_as_f64` (R10) whose assumed contract is only that the cast is a
+/// deterministic function of its operand.
+pub uninterp spec fn i128_to_f64(i: i128) -> f64;
 pub open spec fn t_float(a: Val) -> Res {
     match a {
+        Val::Int(i) => Res::Ok(Val::Float(i128_to_f64(i as i128))),
         Val::Float(_) => Res::Ok(a),
         Val::Dec(d) => ok_f64(dec_to_f64(d), ErrK::InvalidCast),
         Val::Str(s) => ok_f64(f64_from_str(s), ErrK::InvalidCast),
@@ -487,3 +510,6 @@ pub open spec fn both(a: Val, b: Val, ta: int, tb: int) -> bool { tag(a) == ta &
 pub open spec fn arith_supported(a: Val, b: Val) -> bool { both(a, b, 1, 1) || both(a, b, 2, 2) || both(a, b, 3, 3) }
 pub open spec fn order_supported(a: Val, b: Val) -> bool { both(a, b, 1, 1) || both(a, b, 2, 2) || both(a, b, 3, 3) || both(a, b, 5, 5) || both(a, b, 6, 6) }
 pub open spec fn bit_supported(a: Val, b: Val) -> bool { both(a, b, 1, 1) || both(a, b, 4, 4) }
+
+/// the error `TryFrom<Value>` reports for the wrong kind: carries the offending value and the expected type's name (C17)
+pub open spec fn unexpected_type_err(v: Value, expect: Seq<char>) -> Error { Error::UnexpectedValueType(v, string_of(expect)) }
